@@ -796,7 +796,7 @@ def rule_alias(ctx):
         snap = _snapshot_idiom(fi, 'self.data', 'rhs.data')
         readers = [g for g in ka.gvars if g in ('rhs.data', 'rhs_data') or getattr(ka, 'alias_of', {}).get(g) in ('rhs.data',)]
         # names bound to the object itself (`retval = self`) write the same storage
-        ws = ['self.data']
+        ws = ['self.data'] + sorted(g for g in ka.gvars if getattr(ka, 'alias_of', {}).get(g) == 'self.data')
         for st in walk_no_nested(fi.node):
             if isinstance(st, ast.Assign) and isinstance(st.value, ast.Name) and st.value.id == 'self':
                 for t in st.targets:
